@@ -45,6 +45,9 @@ type c04Cell struct {
 	Before string `json:"before,omitempty"`
 	// Peer "link-local": the controller connects through the host's link-local IPv6 address (fe80::…%iface)
 	Peer string `json:"peer,omitempty"`
+	// Bridged: the accessory is a bridge with that many more accessories, so that the encrypted answers are large
+	// (12 ≈ 20 kB, 60 ≈ 80 kB: more than one 64 kB write, 150 ≈ 200 kB)
+	Bridged int `json:"bridged,omitempty"`
 }
 
 func c04ID(kind string) string {
@@ -163,11 +166,17 @@ func c04Exec(c *fw.Ctx, cell c04Cell) {
 	if cell.Peer != "" {
 		sigCell += ",peer=" + cell.Peer
 	}
+	variant := ""
+	if cell.Bridged > 0 {
+		sigCell += fmt.Sprintf(",bridged=%d", cell.Bridged)
+		name = fmt.Sprintf("bridged=%d ", cell.Bridged) + name
+		variant = fmt.Sprintf("bridged:%d", cell.Bridged)
+	}
 	fail := func(step, desc string) {
 		c.Report(step+"/"+sigCell, name+": "+desc, cell)
 	}
 	world.ResetCapture()
-	b, err := newBed(c, bedOpt{Pin: cell.Pin})
+	b, err := newBed(c, bedOpt{Pin: cell.Pin, Variant: variant})
 	if err != nil {
 		c.Infra("bed: " + err.Error())
 		return
@@ -363,7 +372,7 @@ func c04Exec(c *fw.Ctx, cell c04Cell) {
 	if cell.Restart {
 		dir := b.Dir
 		b.CloseKeep()
-		nb, err := newBed(c, bedOpt{Pin: cell.Pin, Dir: dir})
+		nb, err := newBed(c, bedOpt{Pin: cell.Pin, Dir: dir, Variant: variant})
 		if err != nil {
 			c.Infra("restart: " + err.Error())
 			return
@@ -403,9 +412,24 @@ func c04Exec(c *fw.Ctx, cell c04Cell) {
 	var dbj struct {
 		Accessories []json.RawMessage `json:"accessories"`
 	}
-	if json.Unmarshal(m.Body, &dbj) != nil || len(dbj.Accessories) != 5 {
-		fail("accessories-json", "attribute database is not the expected JSON")
+	if json.Unmarshal(m.Body, &dbj) != nil || len(dbj.Accessories) != 5+cell.Bridged {
+		fail("accessories-json", fmt.Sprintf("attribute database (%d bytes received) is not the expected JSON with %d accessories", len(m.Body), 5+cell.Bridged))
 		return
+	}
+	if cell.Bridged > 0 {
+		// a read of one characteristic of every accessory in one request: another large answer
+		var ids []string
+		for a := 1; a <= 5+cell.Bridged; a++ {
+			ids = append(ids, fmt.Sprintf("%d.2", a), fmt.Sprintf("%d.3", a), fmt.Sprintf("%d.4", a), fmt.Sprintf("%d.5", a))
+		}
+		m, _, err := vk.Do("GET", "/characteristics?id="+strings.Join(ids, ","), "", nil)
+		var cj struct {
+			Characteristics []json.RawMessage `json:"characteristics"`
+		}
+		if err != nil || (m.Status != 200 && m.Status != 207) || json.Unmarshal(m.Body, &cj) != nil || len(cj.Characteristics) != len(ids) {
+			fail("encrypted-get-many-characteristics", fmt.Sprintf("read of %d characteristics: %v %v", len(ids), m, err))
+			return
+		}
 	}
 	aid, iid := b.Brightness()
 	put := fmt.Sprintf(`{"characteristics":[{"aid":%d,"iid":%d,"value":42}]}`, aid, iid)
@@ -528,6 +552,10 @@ func c04Cells(thorough bool) []c04Cell {
 	add(func(x *c04Cell) { x.Peer = "link-local" })
 	add(func(x *c04Cell) { x.Peer = "link-local"; x.SameConn = true; x.IDKind = "utf8" })
 	add(func(x *c04Cell) { x.RePair = true })
+	for _, n := range []int{12, 60, 150} {
+		add(func(x *c04Cell) { x.Bridged = n })
+	}
+	add(func(x *c04Cell) { x.Bridged = 24; x.SameConn = true; x.Restart = true })
 	add(func(x *c04Cell) { x.RePair = true; x.SameConn = true; x.IDKind = "utf8" })
 	if thorough {
 		// the full cross product of the smaller dimensions
@@ -576,7 +604,7 @@ func init() {
 	fw.Register(&fw.Check{
 		ID:    "C04",
 		Level: "exploration",
-		Rule:  "an independent controller (internal/refctl, no hc import) runs pair-setup, pair-verify and encrypted requests against the real transport for every cell of an explicit input-partition grid: 9 setup codes (default, extremes, adjacent to every trivial code) × controller identifiers {UUID, 1 byte, 63, 64 bytes, multi-byte UTF-8} × 3 Ed25519 identities × X25519 keys incl. one with the high bit set × request sizes {small, 1023, 1024, 1025, 2048, 2049, 4097 bytes} × {fresh, restarted} accessory × {same, new} connection, plus one cell per code-visible shortcut: SRP A and S with a leading zero byte (found by deterministic search), accessory B with a leading zero byte (crypto/rand.Reader steered to a stream found by deterministic search), wrong setup code (must give TLV error 2, store unchanged), a wrong-code attempt followed by the right code on the same connection. quick: one-factor-at-a-time around the base cell; thorough: cross product of the small dimensions. The controller verifies every proof/signature/key the accessory produces. distinct_nontrivial = distinct cells completed Added cells: identifiers of 96, 97 and 124 bytes (the longest with a legal entity file name); every pairing request body delivered in two TCP segments cut at 1, 2, 3, 40, 120, 258, 300 bytes and one byte before its end; a second pair-setup of the same identifier with a new key pair (if the accessory completes it, the new key verifies and the replaced one does not); after M6 the listed entities are exactly the accessory and the controller.",
+		Rule:  "an independent controller (internal/refctl, no hc import) runs pair-setup, pair-verify and encrypted requests against the real transport for every cell of an explicit input-partition grid: 9 setup codes (default, extremes, adjacent to every trivial code) × controller identifiers {UUID, 1 byte, 63, 64 bytes, multi-byte UTF-8} × 3 Ed25519 identities × X25519 keys incl. one with the high bit set × request sizes {small, 1023, 1024, 1025, 2048, 2049, 4097 bytes} × {fresh, restarted} accessory × {same, new} connection, plus one cell per code-visible shortcut: SRP A and S with a leading zero byte (found by deterministic search), accessory B with a leading zero byte (crypto/rand.Reader steered to a stream found by deterministic search), wrong setup code (must give TLV error 2, store unchanged), a wrong-code attempt followed by the right code on the same connection. quick: one-factor-at-a-time around the base cell; thorough: cross product of the small dimensions. The controller verifies every proof/signature/key the accessory produces. distinct_nontrivial = distinct cells completed Added cells: identifiers of 96, 97 and 124 bytes (the longest with a legal entity file name); every pairing request body delivered in two TCP segments cut at 1, 2, 3, 40, 120, 258, 300 bytes and one byte before its end; a second pair-setup of the same identifier with a new key pair (if the accessory completes it, the new key verifies and the replaced one does not); after M6 the listed entities are exactly the accessory and the controller; bridges with 12, 24, 60 and 150 more accessories (encrypted answers of about 20, 40, 80 and 200 kB: the attribute database and a read of four characteristics of every accessory in one request).",
 		Run:   c04Run,
 		Replay: func(c *fw.Ctx, raw json.RawMessage) {
 			var cell c04Cell
